@@ -4,12 +4,18 @@ From XV Require Import Base.XDefs C19.Uri19 C19.Spec19 C19.Model19 C19.Proofs19a
 From Coq Require Import Arith PeanoNat Lia.
 Local Open Scope nat_scope.
 
-Definition is_push (e : event) : bool := match e with EvPush _ => true | _ => false end.
+(** readers that count against the limit: those pushed by the document scanners, and -- with the repair of
+    finding C19-F1, [c_countDtd] -- those pushed by the DTD scanner *)
+Definition is_push_c (cd : bool) (e : event) : bool :=
+  match e with EvPush _ => true | EvPushDtd _ => cd | _ => false end.
+Definition is_push (e : event) : bool := is_push_c false e.
 Definition is_expand (e : event) : bool := match e with EvExpand _ _ => true | _ => false end.
-Definition cntP (l : list event) : nat := length (filter is_push l).
+Definition cntPc (cd : bool) (l : list event) : nat := length (filter (is_push_c cd) l).
+Definition cntP (l : list event) : nat := cntPc false l.
 Definition cntE (l : list event) : nat := length (filter is_expand l).
 
-Definition neutral (ev : list event) : Prop := Forall (fun e => is_push e = false /\ is_expand e = false) ev.
+Definition neutral (ev : list event) : Prop :=
+  Forall (fun e => (forall cd, is_push_c cd e = false) /\ is_expand e = false) ev.
 
 Lemma cnt_neutral : forall (f : event -> bool) (ev tr : list event), Forall (fun e => f e = false) ev -> length (filter f (rev ev ++ tr)) = length (filter f tr).
 Proof.
@@ -19,8 +25,8 @@ Proof.
   rewrite E. reflexivity.
 Qed.
 
-Lemma cntP_neutral : forall ev tr, neutral ev -> cntP (rev ev ++ tr) = cntP tr.
-Proof. intros ev tr H. apply cnt_neutral. eapply Forall_impl; [|exact H]. intros a [A _]. exact A. Qed.
+Lemma cntP_neutral : forall cd ev tr, neutral ev -> cntPc cd (rev ev ++ tr) = cntPc cd tr.
+Proof. intros cd ev tr H. apply cnt_neutral. eapply Forall_impl; [|exact H]. intros a [A _]. apply A. Qed.
 Lemma cntE_neutral : forall ev tr, neutral ev -> cntE (rev ev ++ tr) = cntE tr.
 Proof. intros ev tr H. apply cnt_neutral. eapply Forall_impl; [|exact H]. intros a [_ A]. exact A. Qed.
 
@@ -55,7 +61,7 @@ Variables (c : cfg) (rs : option resolver) (fs : filesys) (L : nat).
 Hypothesis HL : c_limit c = Some L.
 
 Definition LimInv (s : st) : Prop :=
-  cntP (s_tr s) = s_cnt s /\ cntE (s_tr s) <= L /\ cntE (s_tr s) <= s_cnt s /\
+  cntPc (c_countDtd c) (s_tr s) = s_cnt s /\ cntE (s_tr s) <= L /\ cntE (s_tr s) <= s_cnt s /\
   (s_halt s = false -> s_cnt s <= L) /\ s_cnt s <= S L.
 
 Lemma LimInv_emit : forall ev s, neutral ev -> LimInv s -> LimInv (emit ev s).
@@ -67,7 +73,7 @@ Qed.
 Lemma LimInv_halt : forall f s, LimInv s -> LimInv (halt f s).
 Proof.
   intros f s (A & B & C & D & E). unfold LimInv, halt. cbn [s_tr s_cnt s_halt].
-  change (cntP (EvFatal f :: s_tr s)) with (cntP (s_tr s)). change (cntE (EvFatal f :: s_tr s)) with (cntE (s_tr s)).
+  change (cntPc (c_countDtd c) (EvFatal f :: s_tr s)) with (cntPc (c_countDtd c) (s_tr s)). change (cntE (EvFatal f :: s_tr s)) with (cntE (s_tr s)).
   repeat split; auto; try discriminate.
 Qed.
 
@@ -85,12 +91,12 @@ Proof.
   destruct (Nat.ltb L (S (s_cnt s))) eqn:O.
   - apply Nat.ltb_lt in O.
     unfold LimInv, halt, incr, emit. cbn [s_tr s_cnt s_halt rev app].
-    change (cntP (EvFatal FLimit :: EvPush n :: s_tr s)) with (S (cntP (s_tr s))).
+    change (cntPc (c_countDtd c) (EvFatal FLimit :: EvPush n :: s_tr s)) with (S (cntPc (c_countDtd c) (s_tr s))).
     change (cntE (EvFatal FLimit :: EvPush n :: s_tr s)) with (cntE (s_tr s)).
     repeat split; try lia; try discriminate.
   - apply Nat.ltb_ge in O. apply IH.
     unfold LimInv, incr, emit. cbn [s_tr s_cnt s_halt rev app].
-    change (cntP (EvExpand ia n :: EvPush n :: s_tr s)) with (S (cntP (s_tr s))).
+    change (cntPc (c_countDtd c) (EvExpand ia n :: EvPush n :: s_tr s)) with (S (cntPc (c_countDtd c) (s_tr s))).
     change (cntE (EvExpand ia n :: EvPush n :: s_tr s)) with (S (cntE (s_tr s))).
     repeat split; try lia.
 Qed.
@@ -117,6 +123,27 @@ Proof.
     exact (LimInv_counted rec false id (Some n) (push_stack cur st) n ps (emit ev s) IH Hh1 H1).
 Qed.
 
+(** a reader pushed by the DTD scanner: counted (and checked) exactly when the library counts it *)
+Lemma LimInv_push_dtd : forall n s, s_halt s = false -> LimInv s -> LimInv (push_dtd c n s).
+Proof.
+  intros n s Hh (A & B & C & D & E). specialize (D Hh). unfold push_dtd, LimInv in *.
+  destruct (c_countDtd c) eqn:CD.
+  - cbv zeta. unfold over_limit. rewrite HL. cbn [incr emit s_cnt rev app].
+    destruct (Nat.ltb L (S (s_cnt s))) eqn:O.
+    + apply Nat.ltb_lt in O. unfold halt, incr, emit. cbn [s_tr s_cnt s_halt rev app].
+      change (cntPc true (EvFatal FLimit :: EvPushDtd n :: s_tr s)) with (S (cntPc true (s_tr s))).
+      change (cntE (EvFatal FLimit :: EvPushDtd n :: s_tr s)) with (cntE (s_tr s)).
+      repeat split; try lia; try discriminate.
+    + apply Nat.ltb_ge in O. unfold incr, emit. cbn [s_tr s_cnt s_halt rev app].
+      change (cntPc true (EvPushDtd n :: s_tr s)) with (S (cntPc true (s_tr s))).
+      change (cntE (EvPushDtd n :: s_tr s)) with (cntE (s_tr s)).
+      repeat split; try lia.
+  - unfold emit. cbn [s_tr s_cnt s_halt rev app].
+    change (cntPc false (EvPushDtd n :: s_tr s)) with (cntPc false (s_tr s)).
+    change (cntE (EvPushDtd n :: s_tr s)) with (cntE (s_tr s)).
+    repeat split; auto.
+Qed.
+
 Lemma LimInv_st0 : LimInv st0.
 Proof. unfold LimInv, st0. cbn. repeat split; try lia. Qed.
 
@@ -128,7 +155,7 @@ Proof.
   - intros n g s H. exact H.
   - intros n s H. exact H.
   - intros n s H. exact H.
-  - intros n s H. apply LimInv_emit; [unfold neutral; repeat constructor|exact H].
+  - exact LimInv_push_dtd.
   - intros k rb b sys pub ev r s _ E H. apply LimInv_emit; [eapply neutral_cr; eauto|exact H].
   - intros base loc ns ev src s E H. apply LimInv_emit; [eapply neutral_ss; eauto|exact H].
   - intros base loc ns ev src ev2 ct s E E2 H.
@@ -140,11 +167,11 @@ Qed.
 (** T19_limit: at most L expansions are accepted (startEntityReference / attribute-value expansion) and at
     most L+1 entity readers are pushed by the scanners, in every run, for every document. *)
 Lemma limit_bound : forall x,
-  cntE (trace (run c rs fs x)) <= L /\ cntP (trace (run c rs fs x)) <= S L.
+  cntE (trace (run c rs fs x)) <= L /\ cntPc (c_countDtd c) (trace (run c rs fs x)) <= S L.
 Proof.
   intros x. destruct (LimInv_run default_fuel x) as (A & B & C & D & E).
-  unfold trace, run, cntE, cntP. rewrite !cnt_rev. fold (cntE (s_tr (run_fuel default_fuel c rs fs x))).
-  fold (cntP (s_tr (run_fuel default_fuel c rs fs x))). split; [exact B|rewrite A; exact E].
+  unfold trace, run, cntE, cntPc. rewrite !cnt_rev. fold (cntE (s_tr (run_fuel default_fuel c rs fs x))).
+  fold (cntPc (c_countDtd c) (s_tr (run_fuel default_fuel c rs fs x))). split; [exact B|rewrite A; exact E].
 Qed.
 
 End Limit.
